@@ -115,11 +115,11 @@ def _carry_flag(fn):
     if len(ifs) != 1 or ast.unparse(ifs[0].test) != "p < p_restart":
         raise TranslateError("tdrk: expected a single top-level `if p < p_restart:` in the loop")
     rej, acc = ifs[0].body, ifs[0].orelse
-    if len(acc) != 1 or not isinstance(acc[0], ast.If):
-        raise TranslateError("tdrk: accept branch is not a single if/else")
-    fin, sub = acc[0].body, acc[0].orelse
+    if not acc or not isinstance(acc[-1], ast.If) or any(isinstance(x, (ast.If, ast.While, ast.For)) for x in acc[:-1]):
+        raise TranslateError("tdrk: accept branch is not (simple statements; if final: ... else: ...)")
+    prefix, fin, sub = acc[:-1], acc[-1].body, acc[-1].orelse
     if not any(isinstance(s, ast.Break) for s in fin) or any(isinstance(n, ast.Break) for s in sub for n in ast.walk(s)) \
-            or any(isinstance(n, ast.Break) for s in rej for n in ast.walk(s)):
+            or any(isinstance(n, ast.Break) for s in rej + prefix for n in ast.walk(s)):
         raise TranslateError("tdrk: `break` is expected in the final-step branch only")
     if trial == carried:
         # the carried state is overwritten before the test: no further store may exist
@@ -127,17 +127,20 @@ def _carry_flag(fn):
         if others:
             raise TranslateError("tdrk: unexpected additional store to %s" % carried)
         return True, carried, trial
-    # fresh name: it must be copied to the carried name on both accepting paths and never on the rejecting path
+    # fresh name: it must be copied to the carried name on every accepting path and never on the rejecting path
     def copies(stmts):
         return [s for s in stmts if isinstance(s, ast.Assign) and len(s.targets) == 1 and isinstance(s.targets[0], ast.Name)
                 and s.targets[0].id == carried and isinstance(s.value, ast.Name) and s.value.id == trial]
     if _stores_to(rej, carried):
         raise TranslateError("tdrk: the rejecting path stores to the carried state")
-    if len(copies(fin)) != 1 or len(copies(sub)) != 1:
-        raise TranslateError("tdrk: the trial result is not copied to the carried state exactly once on each accepting path")
-    all_stores = _stores_to(loop.body, carried)
-    if len(all_stores) != 2:
+    shape = (len(copies(prefix)), len(copies(fin)), len(copies(sub)))
+    if shape not in ((1, 0, 0), (0, 1, 1)):
+        raise TranslateError("tdrk: the trial result is not copied to the carried state exactly once on each accepting path %r" % (shape,))
+    if len(_stores_to(loop.body, carried)) != sum(shape):
         raise TranslateError("tdrk: unexpected stores to the carried state")
+    # the stores of the trial name itself: only the call
+    if len(_stores_to(loop.body, trial)) != 1:
+        raise TranslateError("tdrk: unexpected stores to the trial state")
     return False, carried, trial
 
 
